@@ -366,6 +366,16 @@ func (g *G) dirEntry(i int) *Content {
 		c.Dst += "/"
 	}
 	c.Exp = []Expect{{Dst: d, Kind: "dir"}}
+	if g.r.P(1, 3) {
+		// a directory of the build environment as source: its mode is copied
+		// (documented), minus the umask, unless file_info declares one
+		n := &Node{Rel: g.srcDir() + "/dirsrc-" + g.word(0), Kind: "dir", Perm: rng.Pick(g.r, []os.FileMode{0o700, 0o750, 0o775, 0o711, 0o755, 0o777}), MTime: g.mtime()}
+		g.c.Tree.Add(n)
+		c.Src = filepath.Join(g.c.Root, n.Rel)
+		c.Exp[0].Node = n
+		c.Shape = "dir-from-src"
+		g.c.Feature("dir-with-src")
+	}
 	return c
 }
 
